@@ -118,6 +118,9 @@ T = [
     ["v = [(lambda: $E), (lambda: $E)]"],
     ["def fe(p):", '    ""', "    $B", '    return ("", $E)'],
     ["def fp(p, /, q=$E, *, k):", "    loc = 1", "    $B", "    return (q, loc, k)"],
+    # deleting captured variables (DELETE_DEREF), explicitly and through `except ... as`
+    ["def od(p):", "    cv = 1", "    cw = $E", "    def inner():", "        return (cw, cv, p)", "    del cv", "    $B", "    return inner"],
+    ["def oe():", "    try:", "        $B", "    except E1 as err:", "        def inner():", "            return err", "        return inner"],
     # a docstring that is not valid UTF-8 (lone surrogate)
     ["def fs(p):", '    "\\udc80doc"', "    $B", "    return p"],
     # dead code after the last live instruction on a later line: <=3.9 keep a line-table
@@ -453,8 +456,27 @@ def _src_lnotab_inside(n):
     return "".join("x%d = %d\n" % (i, 1000 + i) for i in range(n)) + "def f(a=(1, 2),\n      b=(3, 4)):\n    pass\n"
 
 
+def _src_dispatch(n):
+    """A function with n conditional returns: more than n jump targets in one code object."""
+    return "def f(a):\n" + "".join("    if a == %d: return %d\n" % (i, i % 7) for i in range(n)) + "    return -1\n"
+
+
+def _src_unref_tail(nm):
+    """n names used, then m names that occur only in unreachable code after `return`
+    (unreferenced trailing table entries; n*10+m is encoded in one parameter)."""
+    n, m = nm // 10, nm % 10
+    return (
+        "def f():\n"
+        + "".join("    g%d\n" % i for i in range(n))
+        + "    return 1\n"
+        + "".join("    h%d\n" % i for i in range(m))
+    )
+
+
 FEAT = {
     "lnotab_inside": _src_lnotab_inside,
+    "unref_tail": _src_unref_tail,
+    "dispatch": _src_dispatch,
     "names": _src_names,
     "consts": _src_consts,
     "locals": _src_locals,
@@ -470,13 +492,19 @@ JUMP_KINDS = ["if", "ifdef", "while", "for", "try", "with", "back", "or"]
 
 def feat_cases(tier):
     ns = [255, 256, 257]
+    for n in (40, 300, 600):
+        yield {"k": "feat", "s": "F", "fam": "dispatch", "n": n, "mode": "exec", "opt": 0}
     for fam in sorted(FEAT):
+        if fam in ("unref_tail", "dispatch"):
+            continue
         for n in ns:
             if fam in ("call", "list", "kwcall") and n > 255 and fam != "list":
                 # CALL_FUNCTION with >255 args compiles to another shape; keep it (it
                 # is a valid program) -- no filtering, compile decides
                 pass
             yield {"k": "feat", "s": "F", "fam": fam, "n": n, "mode": "exec", "opt": 0}
+    for nm in (62, 63, 72, 73, 82, 83, 142, 152, 153, 162, 163):
+        yield {"k": "feat", "s": "F", "fam": "unref_tail", "n": nm, "mode": "exec", "opt": 0}
     big = [65535, 65536, 65537] if tier == "thorough" else [65537]
     for fam in ("names", "consts"):
         for n in big:
